@@ -69,6 +69,7 @@ func c05Cells(tier string) []Cell {
 							// reach the failure cache (the backend is given explicitly, so the limit applies to nothing)
 							c := FCfg{Front: front, SU: su, MS: true, Init: init + "A", FailC: "00", Rand: rnd, BCount: 1, Tags: []string{"window", fmt.Sprint(maxLen), fmt.Sprint(first)}}
 							if init == "S" && rnd == 1+0.5 {
+								c.ObsMut = true // ... and ObserveMutability compares every rebuilt value with the one it replaces
 								c.UpdSec = 2 // UpdateTTL shorter than FailedUpdateTTL: the refreshed stale copy expires inside the window
 							}
 
@@ -103,7 +104,7 @@ func c05FT(cfg FCfg) time.Duration {
 func c05Alphabet(ft int) []string {
 	return []string{"Get(ok)", "Get(fail)", "Advance(1s)", "Advance(FT*0.95-16ns)", "Advance(FT*1.05+1ns)", "ExpireAll(backend)", "Get(fail, caller context already cancelled)",
 		"Get(fail, caller context carries TTL 1s)", "Get(ok, caller context carries TTL 1h)",
-		"Get(fail) of another key", "cleanup cycle of the failure cache"}
+		"Get(fail) of another key", "cleanup cycle of the failure cache", "Get(ok, the builder returns the cached value again)"}
 }
 
 func c05Burst(cfg FCfg, env *Env) CellResult {
@@ -220,10 +221,14 @@ func c05Window(cfg FCfg, env *Env) CellResult {
 
 			for _, o := range seq {
 				switch o {
-				case 0, 1, 6, 7, 8:
+				case 0, 1, 6, 7, 8, 11:
 					h.cfg.Script = "o"
-					if o != 0 && o != 8 {
+					if o != 0 && o != 8 && o != 11 {
 						h.cfg.Script = "f"
+					}
+
+					if o == 11 {
+						h.cfg.Script = "s" // a successful build whose result equals what is cached (ObserveMutability sees "unchanged")
 					}
 
 					gctx := context.Background()
@@ -249,7 +254,7 @@ func c05Window(cfg FCfg, env *Env) CellResult {
 					t, isNil, _, err := h.front.Get(gctx, key, h.builder(0))
 					vsched.Join()
 
-					e := c05Ev{op: ops[o], at: vclock.NowQuiet(), built: h.nbuild[0] > nb, failed: o != 0 && o != 8 && h.nbuild[0] > nb, hourTTL: o == 8}
+					e := c05Ev{op: ops[o], at: vclock.NowQuiet(), built: h.nbuild[0] > nb, failed: o != 0 && o != 8 && o != 11 && h.nbuild[0] > nb, hourTTL: o == 8}
 
 					switch {
 					case err != nil:
@@ -318,11 +323,12 @@ func c05Window(cfg FCfg, env *Env) CellResult {
 
 			if e.built && e.at.Before(freshUntil) {
 				viol = append(viol, Violation{Signature: fmt.Sprintf("C05 %s rebuild-while-fresh", front),
-					Detail: fmt.Sprintf("builder invoked at %v although the value built under a caller TTL of 1h is fresh until %v", e.at.Sub(vclock.Epoch), freshUntil.Sub(vclock.Epoch))})
+					Detail: fmt.Sprintf("builder invoked at %v although the value built last is fresh until %v (its TTL: the caller's 1h, else the backend's 5m)", e.at.Sub(vclock.Epoch), freshUntil.Sub(vclock.Epoch))})
 			}
 
 			if e.built && !e.failed {
-				freshUntil = time.Time{}
+				// a successful build is fresh for the TTL it was stored with: the caller's, else the backend's
+				freshUntil = e.at.Add(backendTTL - time.Second)
 
 				if e.hourTTL {
 					freshUntil = e.at.Add(time.Hour - time.Second)
@@ -423,7 +429,7 @@ func init() {
 		ID: "C05", Title: "Build economy: SyncRead single-flight and cached failures suppress rebuilds",
 		Cells: c05Cells, Run: c05Run,
 		Rule: "(a,c) SyncRead bursts: 2-3 threads x 1-2 Gets on one key in state {absent, stale, too stale, fresh}, builder ok / failing, SU x FH x MS x 3 front-ends, all schedules within the bound: exactly one (successful / failing) build per burst; " +
-			"(b) all sequences of <=4 (quick) / <=5 (thorough) operations over {Get(ok), Get(fail), Get(fail) under an already cancelled caller context, Get(fail) under a caller TTL of 1s, Get(ok) under a caller TTL of 1h, Get(fail) of another key, a cleanup cycle of the internal failure cache, Advance 1s, Advance FT*0.95-1ns, Advance FT*1.05+1ns, ExpireAll(backend)} for FailedUpdateTTL {20s, 5s, -1} with the jitter answer at both extremes and the middle: " +
+			"(b) all sequences of <=4 (quick) / <=5 (thorough) operations over {Get(ok), Get(fail), Get(fail) under an already cancelled caller context, Get(fail) under a caller TTL of 1s, Get(ok) under a caller TTL of 1h, Get(fail) of another key, a cleanup cycle of the internal failure cache, Get(ok) whose builder returns the cached value again (ObserveMutability on in some cells), Advance 1s, Advance FT*0.95-1ns, Advance FT*1.05+1ns, ExpireAll(backend)} for FailedUpdateTTL {20s, 5s, -1} with the jitter answer at both extremes and the middle: " +
 			"no builder entry before t_fail + FT*(1-J/2), same error inside the window, rebuild on every Get with FT=-1",
 		Assumptions: []string{
 			"a burst happens at one virtual instant, so the built result stays fresh for its whole duration",
